@@ -319,7 +319,7 @@ def new_vector(eng, st, t, name):
         # it was cast from; its contents are the (immutable) contents of that object (M.ext_spec_*)
         return Ptr(st.alloc(ScalarVec.empty('specvec:' + name, Ref)))
     if 'vector<std::basic_string' in t or 'vector<std::string' in t:
-        return Ptr(st.alloc(ScalarVec.empty(name, Ref)))
+        return Ptr(st.alloc(ScalarVec(z3.IntVal(0), z3.K(Int, EMPTY), Str, name)))
     raise Unsupported(f'new_vector of {t}')
 
 
@@ -804,7 +804,10 @@ def vector_method(eng, st, base: Ptr, v, name, A, n):
                 val = NULL if v.sort == Ref else z3.IntVal(0)
             else:
                 a = eng.load(st, A[0])
-                val = refof(a) if v.sort == Ref else as_int(a)
+                if v.sort == Str:
+                    val = a if (z3.is_expr(a) and a.sort() == Str) else fresh('string', Str)
+                else:
+                    val = refof(a) if v.sort == Ref else as_int(a)
             st.heap[oid] = replace(v, len=v.len + 1, arr=z3.Store(v.arr, v.len, val))
             return [(st, ElemRef(oid, v.len))]
         if isinstance(v, PairVec):
@@ -856,6 +859,12 @@ def operator_call(eng, n, st):
             f = vals[0]
             if isinstance(f, Lam):
                 raise Unsupported('indirect lambda call')
+            hookm = getattr(eng.cur_contract, 'on_pymethod_call', None)
+            if isinstance(f, PyMethod) and hookm is not None:
+                rm = hookm(eng, s, f, vals[1:], n)
+                if rm is not None:
+                    outs += rm
+                    continue
             if isinstance(f, PyMethod) and f.name == 'copy':
                 src = f.obj
                 r = fresh('list_copy', Ref)
@@ -1112,7 +1121,11 @@ def construct(eng, n, st):
             elif len(vals) == 1 and isinstance(vals[0], Opaque) and vals[0].tag.startswith('pyid:'):
                 outs.append((s, vals[0]))          # interned attribute name
             elif short == 'cpp_function':
-                outs.append((s, PyObj(fresh('cpp_function', Ref), fresh=True)))
+                fobj = PyObj(fresh('cpp_function', Ref), fresh=True)
+                hook = getattr(eng.cur_contract, 'on_cpp_function', None)
+                if hook:
+                    hook(eng, s, fobj, vals, n)
+                outs.append((s, fobj))
             else:
                 raise Unsupported(f'construction of {t} from {vals!r} at L{line}')
         return outs
